@@ -530,4 +530,148 @@ Section Reassembly.
     intros Hsz Hl. destruct (rs_cli_run size l Hsz Hl None [] eq_refl) as (A & B). split; [exact A|].
     intros j Hj. specialize (B j Hj). cbn [existsb] in B. lia.
   Qed.
+  (* ---------------------------------------------------------------- in-order completeness *)
+  Lemma rs_contig r j : blk_inv r -> 0 < j -> (forall x, blk_memP r x <-> 0 <= x < j) ->
+    r = [(0, j - 1)].
+  Proof.
+    intros Hi Hj Hm.
+    assert (Hne : r <> []) by (intros ->; destruct (proj2 (Hm 0) ltac:(lia))).
+    assert (A : blk_check_all_in r j = true).
+    { apply (blk_check_all_in_spec r j Hi Hne).
+      - intros k Hk. apply blk_abs_mem, Hm in Hk. lia.
+      - intros k Hk. apply blk_abs_mem, Hm. exact Hk. }
+    destruct Hi as (Hs & _).
+    apply (blk_check_all_in_shape r j Hs Hne) in A. destruct A as (e & -> & He).
+    assert (e < j) by (assert (X : blk_memP [(0, e)] e) by (cbn [blk_memP]; left;
+                        destruct Hs as (? & ? & _); lia); apply Hm in X; lia).
+    f_equal. f_equal. lia.
+  Qed.
+
+  Lemma rs_mem_nonempty r : blk_sorted_from 0 r -> r <> [] -> exists x, blk_memP r x.
+  Proof.
+    destruct r as [|[b e] t]; [congruence|]. intros (H1 & H2 & _) _. exists b. cbn. left. lia.
+  Qed.
+
+  Lemma rs_range_from_step j : 0 <= j < K ->
+    blk_range_from j (K - j) = j :: blk_range_from (j + 1) (K - (j + 1)).
+  Proof. intros. rewrite blk_range_from_cons by lia. f_equal. f_equal. lia. Qed.
+
+  Lemma rs_srv_inorder_from : 2 <= K -> forall (n : nat) j st seen,
+    Z.of_nat (S n) = K - j -> 0 <= j ->
+    rs_srv_inv st seen -> (forall x, In x seen <-> 0 <= x < j) ->
+    blk_run (blk_srv_step junk) st
+      (map (blk_arr_of body szx (Some L)) (blk_range_from j (K - j)))
+    = repeat BoContinue n ++ [BoDeliver body].
+  Proof.
+    intros HK. induction n as [|n IH]; intros j st seen Hn Hj Hinv Hseen.
+    - assert (j = K - 1) by lia. subst j.
+      rewrite rs_range_from_step by lia. replace (K - (K - 1 + 1)) with 0 by lia.
+      cbn [blk_range_from Z.to_nat seq map blk_run repeat app].
+      pose proof (rs_srv_step st seen (K - 1) Hinv ltac:(lia)) as S.
+      destruct (blk_srv_step junk st (blk_arr_of body szx (Some L) (K - 1))) as [st' o].
+      destruct o as [| | |d|].
+      + destruct S as (_ & S). exfalso. apply S. intros x Hx. cbn [In].
+        destruct (Z.eq_dec x (K - 1)); [left; lia|right; apply Hseen; lia].
+      + destruct S.
+      + exfalso. destruct S as (_ & s & -> & Eu). cbn [rs_srv_inv] in Hinv.
+        destruct Hinv as (A1 & A2 & A3 & _).
+        assert (R : br_rec s = [(0, K - 1 - 1)]).
+        { apply rs_contig; [exact A1|lia|]. intros x. rewrite A3. apply Hseen. }
+        apply (blk_update_none_iff _ _ A1) in Eu; [|lia]. rewrite R in Eu.
+        destruct Eu as (Eu & _). vm_compute in Eu. discriminate.
+      + destruct S as (-> & _). reflexivity.
+      + destruct S as (S & _). lia.
+    - assert (Hjk : 0 <= j < K - 1) by lia.
+      rewrite rs_range_from_step by lia. cbn [map blk_run repeat app].
+      pose proof (rs_srv_step st seen j Hinv ltac:(lia)) as S.
+      destruct (blk_srv_step junk st (blk_arr_of body szx (Some L) j)) as [st' o].
+      destruct o as [| | |d|].
+      + destruct S as (S & _). f_equal.
+        apply (IH (j + 1) st' (j :: seen)); [lia|lia|exact S|].
+        intros x. cbn [In]. rewrite Hseen. lia.
+      + destruct S.
+      + exfalso. destruct S as (_ & s & -> & Eu). cbn [rs_srv_inv] in Hinv.
+        destruct Hinv as (A1 & A2 & A3 & _).
+        destruct (Z.eq_dec j 0) as [->|Hj0].
+        * destruct (rs_mem_nonempty _ (proj1 A1) A2) as (x & Hx). apply A3, Hseen in Hx. lia.
+        * assert (R : br_rec s = [(0, j - 1)]).
+          { apply rs_contig; [exact A1|lia|]. intros x. rewrite A3. apply Hseen. }
+          apply (blk_update_none_iff _ _ A1) in Eu; [|lia]. rewrite R in Eu.
+          destruct Eu as (Eu & _). vm_compute in Eu. discriminate.
+      + exfalso. destruct S as (_ & _ & S). specialize (S (K - 1) ltac:(lia)). cbn [In] in S.
+        destruct S as [S|S]; [lia|]. apply Hseen in S. lia.
+      + destruct S as (S & _). lia.
+  Qed.
+
+  (* every block once, in order: K-1 continuations and then exactly one delivery of the body *)
+  Theorem blk_srv_inorder : 2 <= K ->
+    blk_run (blk_srv_step junk) None (map (blk_arr_of body szx (Some L)) (blk_range K))
+    = repeat BoContinue (Z.to_nat (K - 1)) ++ [BoDeliver body].
+  Proof.
+    intros HK. rewrite <- blk_range_from_0. replace K with (K - 0) at 1 by lia.
+    apply (rs_srv_inorder_from HK (Z.to_nat (K - 1)) 0 None []); [lia|lia|reflexivity|].
+    intros x. cbn [In]. lia.
+  Qed.
+
+  Lemma rs_cli_inorder_from size : size = None \/ size = Some L -> forall (n : nat) j st seen,
+    Z.of_nat (S n) = K - j -> 0 <= j ->
+    rs_cli_inv size st seen -> (forall x, In x seen <-> 0 <= x < j) ->
+    blk_run (blk_cli_step junk) st
+      (map (blk_arr_of body szx size) (blk_range_from j (K - j)))
+    = repeat BoContinue n ++ [BoDeliver body].
+  Proof.
+    intros Hsz. destruct rs_K_bounds as (_ & K1).
+    induction n as [|n IH]; intros j st seen Hn Hj Hinv Hseen.
+    - assert (j = K - 1) by lia. subst j.
+      rewrite rs_range_from_step by lia. replace (K - (K - 1 + 1)) with 0 by lia.
+      cbn [blk_range_from Z.to_nat seq map blk_run repeat app].
+      pose proof (rs_cli_step size st seen (K - 1) Hsz Hinv ltac:(lia)) as S.
+      destruct (blk_cli_step junk st (blk_arr_of body szx size (K - 1))) as [st' o].
+      destruct o as [| | |d|].
+      + destruct S as (_ & S). exfalso. apply S; [reflexivity| |].
+        * intros X. apply Hseen in X. lia.
+        * intros x Hx. cbn [In].
+          destruct (Z.eq_dec x (K - 1)); [left; lia|right; apply Hseen; lia].
+      + destruct S.
+      + exfalso. destruct S as (_ & s & -> & Eu). cbn [rs_cli_inv] in Hinv.
+        destruct Hinv as (A1 & A2 & A3 & _).
+        destruct (Z.eq_dec (K - 1) 0) as [E0|Hj0].
+        * destruct (rs_mem_nonempty _ (proj1 A1) A2) as (x & Hx). apply A3, Hseen in Hx. lia.
+        * assert (R : br_rec s = [(0, K - 1 - 1)]).
+          { apply rs_contig; [exact A1|lia|]. intros x. rewrite A3. apply Hseen. }
+          apply (blk_update_none_iff _ _ A1) in Eu; [|lia]. rewrite R in Eu.
+          destruct Eu as (Eu & _). vm_compute in Eu. discriminate.
+      + destruct S as (-> & _). reflexivity.
+      + destruct S.
+    - assert (Hjk : 0 <= j < K - 1) by lia.
+      rewrite rs_range_from_step by lia. cbn [map blk_run repeat app].
+      pose proof (rs_cli_step size st seen j Hsz Hinv ltac:(lia)) as S.
+      destruct (blk_cli_step junk st (blk_arr_of body szx size j)) as [st' o].
+      destruct o as [| | |d|].
+      + destruct S as (S & _). f_equal.
+        apply (IH (j + 1) st' (j :: seen)); [lia|lia|exact S|].
+        intros x. cbn [In]. rewrite Hseen. lia.
+      + destruct S.
+      + exfalso. destruct S as (_ & s & -> & Eu). cbn [rs_cli_inv] in Hinv.
+        destruct Hinv as (A1 & A2 & A3 & _).
+        destruct (Z.eq_dec j 0) as [->|Hj0].
+        * destruct (rs_mem_nonempty _ (proj1 A1) A2) as (x & Hx). apply A3, Hseen in Hx. lia.
+        * assert (R : br_rec s = [(0, j - 1)]).
+          { apply rs_contig; [exact A1|lia|]. intros x. rewrite A3. apply Hseen. }
+          apply (blk_update_none_iff _ _ A1) in Eu; [|lia]. rewrite R in Eu.
+          destruct Eu as (Eu & _). vm_compute in Eu. discriminate.
+      + exfalso. destruct S as (_ & _ & S). specialize (S (K - 1) ltac:(lia)). cbn [In] in S.
+        destruct S as [S|S]; [lia|]. apply Hseen in S. lia.
+      + destruct S.
+  Qed.
+
+  Theorem blk_cli_inorder size : size = None \/ size = Some L ->
+    blk_run (blk_cli_step junk) None (map (blk_arr_of body szx size) (blk_range K))
+    = repeat BoContinue (Z.to_nat (K - 1)) ++ [BoDeliver body].
+  Proof.
+    intros Hsz. destruct rs_K_bounds as (_ & K1).
+    rewrite <- blk_range_from_0. replace K with (K - 0) at 1 by lia.
+    apply (rs_cli_inorder_from size Hsz (Z.to_nat (K - 1)) 0 None []); [lia|lia|reflexivity|].
+    intros x. cbn [In]. lia.
+  Qed.
 End Reassembly.
